@@ -81,6 +81,31 @@ Proof. vm_compute. reflexivity. Qed.
     hists.insert(0, [["unit", "length"], ["unit", "length"], ["query", "in_unit", ["int", "3", "1"], 0, 1, 1, 1],
                      ["equals", 0, 1, ["int", "2", "1"], 1, 1], ["query", "in_unit", ["int", "3", "1"], 0, 1, 1, 1],
                      ["query", "in_unit", ["int", "3", "1"], 0, 1, 1, 1]])
+    # graphs with redundant, slightly inconsistent routes (cycles whose arcs multiply to different numbers, non-dyadic ratios whose
+    # float products depend on association): the answer to a query must not depend on which other pairs were converted before,
+    # nor on unrelated declarations or re-declarations made in between
+    def cyc_history(rng):
+        n = rng.choice([4, 5, 6])
+        ops = [["unit", "length"] for _ in range(n)]
+        R = ["0.1", "0.3", "2.002", "1.25", "5", "0.7", "3", "1.1"]
+        def eq(i, j, r=None):
+            f = Fraction(r or rng.choice(R)); return ["equals", i, 1, ["float", str(f.numerator), str(f.denominator)], j, 1]
+        order = list(range(n)); rng.shuffle(order)
+        for a, b in zip(order, order[1:]): ops.append(eq(a, b))
+        for _ in range(rng.choice([1, 2])):
+            a, b = rng.sample(range(n), 2); ops.append(eq(a, b))
+        def q():
+            a, b = rng.sample(range(n), 2)
+            return ["query", rng.choice(["in_unit", "in_unit", "rev", "lt"]), rng.choice([["int", "3", "1"], ["float", "5", "2"], ["int", "1", "1"]]), a, 1, b, 1]
+        for _ in range(rng.randint(2, 6)): ops.append(q())
+        r = rng.random()
+        if r < 0.4: ops += [["unit", "time"], ["unit", "time"], ["equals", n, 1, ["float", "3", "2"], n + 1, 1]]        # unrelated declaration (flushes the caches)
+        elif r < 0.8:
+            e = rng.choice([o for o in ops if o[0] == "equals"]); ops.append(eq(e[1], e[4]))                             # re-declare an existing pair
+        for _ in range(rng.randint(2, 5)): ops.append(q())
+        return ops
+    for _ in range(40 if c.tier == "quick" else 500):
+        hists.append(cyc_history(c.rng))
     with concurrent.futures.ThreadPoolExecutor(16) as ex:
         full = list(ex.map(lambda h: impl("memo_worker.py", {"ops": h}), hists))
         jobs = []
